@@ -165,13 +165,13 @@ impl Engine for C14 {
             ],
             real_components: &["from_tagged_slice / from_slice / to_tagged_vec / to_vec of the six taggable coset types; ciborium underneath"],
             stub_components: &["originators (harness generators + harness CBOR writer)", "wire (tag-head rewriting, misdelivery)"],
-            fault_kinds: &["misdeliver(all 12 endpoints)", "tag-rewrite(number x width)", "own-tag(wide head)", "double-tag", "malformed-head (reserved additional info, wrong major type)", "untagged"],
+            fault_kinds: &["misdeliver(all 12 endpoints)", "tag-rewrite(number x width)", "own-tag(wide head)", "double-tag", "malformed-head (reserved additional info, wrong major type)", "untagged", "size-ladder bodies (2^k - d bytes, k = 8..24 quick / 8..26 thorough)"],
             design_ref: "DESIGN.md section 5.4",
         }
     }
     fn runs(&self, tier: Tier) -> u64 {
         match tier {
-            Tier::Quick => 6_000,
+            Tier::Quick => 4_500,
             Tier::Thorough => 400_000,
         }
     }
@@ -182,6 +182,39 @@ impl Engine for C14 {
         let mut rng = Rng::for_run(seed, run, "C14");
         let mut t = Trace::new("C14", seed, run);
         let ty = TAGGABLE[rng.below(TAGGABLE.len())];
+        // size ladder: about 230 run indices spread over the whole range carry a minimal valid body
+        // whose encoded length is 2^k - d for k = 8..24 (quick) / 8..26 (thorough) and small d (size limits, length-head
+        // boundaries and anything that counts the tag head into a byte budget live there)
+        let stride = (self.runs(_tier) / 232).max(1);
+        if run % stride == stride / 2 {
+            let j = (run / stride) as usize;
+            // k = 8..24 in the quick tier, 8..26 in the thorough tier
+            let nk = if _tier == Tier::Quick { 17 } else { 19 };
+            let k = 8 + (j % nk);
+            let d = [0usize, 1, 2, 3, 4, 5, 6, 7, 8, 9, 10, 16][(j / nk) % 12];
+            let total = (1usize << k) - d;
+            let (pre, post): (Vec<u8>, Vec<u8>) = match ty {
+                "CoseSign1" | "CoseMac0" => (vec![0x84, 0x40, 0xa0], vec![0x40]),
+                "CoseSign" | "CoseEncrypt" => (vec![0x84, 0x40, 0xa0], vec![0x80]),
+                "CoseMac" => (vec![0x85, 0x40, 0xa0], vec![0x40, 0x80]),
+                _ => (vec![0x83, 0x40, 0xa0], vec![]),
+            };
+            let fixed = pre.len() + post.len();
+            // largest L with fixed + head(L) + L <= total
+            let mut l = total.saturating_sub(fixed + 9);
+            while fixed + refcbor::head(2, (l + 1) as u64).len() + l + 1 <= total {
+                l += 1;
+            }
+            let mut body = pre;
+            body.extend(refcbor::head(2, l as u64));
+            body.resize(body.len() + l, 0x55);
+            body.extend(post);
+            t.set_meta("type", ty);
+            t.set_meta("body", "size-ladder");
+            t.set_meta("size", format!("2^{}-{}", k, d));
+            t.push(Step::new("msg", "body", vec![Arg::B(body)]));
+            return t;
+        }
         let cfg = if rng.chance(1, 8) { GenCfg::medium() } else { GenCfg::small() };
         let kind = rng.weighted(&[10, 3, 2, 2, 3, 3, 2]);
         let (body, kname) = match kind {
@@ -276,12 +309,19 @@ impl Engine for C14 {
             h.str(&ty).str(&bk);
             st.distinct(2, h.finish());
         }
-        let tagged_eps = six(Form::Tagged);
-        let untagged_eps = six(Form::Untagged);
+        // bodies beyond 64 KiB (size ladder) go to the own type's two decoders only, with the
+        // own-tag / untagged / registered-tag prefixes, and without hand-modified variants
+        let big = u.len() > (1 << 16);
+        let tagged_eps: Vec<&'static Endpoint> = six(Form::Tagged);
+        let untagged_eps: Vec<&'static Endpoint> = six(Form::Untagged);
 
         // baseline: what each untagged decoder makes of the body
         let mut base: Vec<Option<Decoded>> = Vec::new();
         for ep in &untagged_eps {
+            if big && ep.ty != ty {
+                base.push(None);
+                continue;
+            }
             st.inc("evaluations");
             match guarded(|| (ep.decode)(&u)) {
                 Ok(Ok(d)) => base.push(Some(d)),
@@ -305,13 +345,15 @@ impl Engine for C14 {
             if let Some(d) = b {
                 monitor_subjects.push((i, d.clone()));
                 // hand-modified copies: states decoding never produces but the public fields allow
-                for (_what, v) in d.variants() {
-                    monitor_subjects.push((i, v));
+                if !big {
+                    for (_what, v) in d.variants() {
+                        monitor_subjects.push((i, v));
+                    }
                 }
             }
         }
         // values assembled in memory (never decoded): a seeded one and the default of each type
-        {
+        if !big {
             let mut vr = Rng::for_run(t.seed, t.run, "C14-built");
             for (i, (bty, _)) in REG_TAGS.iter().enumerate() {
                 let mut built: Vec<Decoded> = Vec::new();
@@ -387,11 +429,17 @@ impl Engine for C14 {
         };
 
         for d in &all {
+            if big && !matches!(d.kind, "own-tag" | "own-tag(wide head)" | "misdeliver(other registered tag)" | "untagged") {
+                continue;
+            }
             let mut bytes = d.prefix.clone();
             bytes.extend_from_slice(&u);
             let value_ok = matches!(guarded(|| coset::cbor::value::Value::from_slice(&bytes)), Ok(Ok(_)));
             for (form, eps) in [(Form::Tagged, &tagged_eps), (Form::Untagged, &untagged_eps)] {
                 for (i, ep) in eps.iter().enumerate() {
+                    if big && ep.ty != ty {
+                        continue;
+                    }
                     if form == Form::Untagged && (d.prefix.is_empty() || !d.for_untagged()) {
                         continue; // the baseline / not in the untagged subset
                     }
